@@ -198,7 +198,8 @@ CHECKS["C17"] = dict(
     what_fails="a query served by a shared (coalesced) scan returns rows or an error it does not return alone",
     rule=("2-6 generated queries (all/named/derived fields, grouping, time ranges, LIMIT, memstore on/off, generous deadlines) issued "
           "concurrently against one table, plus in half of the cases an adversary (failing consumer, or short deadline beside a slow "
-          "deadline-free consumer); each non-adversary result is compared with the reference, i.e. with what it returns alone. "
+          "deadline-free consumer), in a third of the cases in a fixed arrival order (6 ms apart) with a LIMIT 1-2 member first and a member whose "
+          "consumer fails on row 3-8 later; each non-adversary result is compared with the reference, i.e. with what it returns alone. "
           "non-trivial: a coalesced group of size >= 2 was observed"))
 CHECKS["C18"] = dict(
     stages=[dict(sub="dbsnap", quick=64, thorough=3200, shrink=["points", "during"], parallel=16, shards=16)],
@@ -348,7 +349,7 @@ CHECKS["C13"] = dict(
                  "web: web.Configure on httptest with a 1ns query timeout and with a 200-byte response limit, /run and /immediate"],
     trusted=_DB_TRUSTED,
     what_fails="a result that omits data was returned without an error, without the partition being listed as missing, or with HTTP 200",
-    rule=("5 generated tables/datasets x 2-3 queries x 6 deadline placements (embedded); 1 cluster x 2-3 queries x (8 error subsets + 8 retriable-error subsets + 3 slow partitions); 3 web configurations x 2 routes. "
+    rule=("5 generated tables/datasets x 2-3 queries x 6 deadline placements (embedded); 5 shared scans (a LIMIT member that arrived first leaves early, a member that arrived 6 ms later runs into its deadline on row 3-5, a third runs to the end); 1 cluster x 2-3 queries x (8 error subsets + 8 retriable-error subsets + 3 slow partitions); 3 web configurations x 2 routes. "
           "Each outcome (complete?, error?, missing partition listed?, HTTP status) must satisfy: complete or told. non-trivial: the result is incomplete / a fault was injected"))
 
 CHECKS["C20"] = dict(
